@@ -395,4 +395,126 @@ inductive Reachable : Chain → Prop where
   | part {c c' p : Chain} {op : Op} : Reachable c → c.step op = .ok (c', .part p) → Reachable p
   | left {c : Chain} {op : Op} {p : Panic Chain} : Reachable c → c.step op = .error p → Reachable p.left
 
+/-! ### Changing the variants (borrowed / owned) of the segments -/
+
+def retagSeg (f : Tag → Tag) (s : Seg) : Seg := ⟨f s.tag, s.bytes⟩
+
+def retagChain (f : Tag → Tag) (c : Chain) : Chain := ⟨c.segs.map (retagSeg f), c.cachedLen⟩
+
+def retagOp (f : Tag → Tag) : Op → Op
+  | .push s => .push (retagSeg f s)
+  | .insert i s => .insert i (retagSeg f s)
+  | op => op
+
+def retagOut (f : Tag → Tag) : Out → Out
+  | .unit => .unit
+  | .popped s => .popped (s.map (retagSeg f))
+  | .removed s => .removed (retagSeg f s)
+  | .part c => .part (retagChain f c)
+
+def retagRes (f : Tag → Tag) : Res Chain Out → Res Chain Out
+  | .error p => .error ⟨retagChain f p.left⟩
+  | .ok (c, o) => .ok (retagChain f c, retagOut f o)
+
+@[simp] theorem retagSeg_bytes (f : Tag → Tag) (s : Seg) : (retagSeg f s).bytes = s.bytes := rfl
+@[simp] theorem retagSeg_tag (f : Tag → Tag) (s : Seg) : (retagSeg f s).tag = f s.tag := rfl
+
+theorem splitScan_retag (f : Tag → Tag) (l : List Seg) (n : Nat) :
+    splitScan (l.map (retagSeg f)) n =
+      (((splitScan l n).1).map (retagSeg f), ((splitScan l n).2.1).map (retagSeg f), (splitScan l n).2.2) := by
+  induction l generalizing n with
+  | nil => simp [splitScan]
+  | cons s rest ih =>
+    simp only [List.map_cons, splitScan, seg_len, retagSeg_bytes]
+    split
+    · simp
+    · rw [ih]; simp
+
+theorem truncScan_retag (f : Tag → Tag) (l : List Seg) (n : Nat) :
+    truncScan (l.map (retagSeg f)) n = (truncScan l n).map (List.map (retagSeg f)) := by
+  induction l generalizing n with
+  | nil => simp [truncScan]
+  | cons s rest ih =>
+    simp only [List.map_cons, truncScan, seg_len, retagSeg_bytes]
+    split
+    · simp
+    · split
+      · rename_i hlt
+        rw [seg_truncate_lt _ n (by simpa using hlt), seg_truncate_lt s n hlt]
+        simp [retagSeg]
+      · rw [ih]
+        cases truncScan rest (n - s.bytes.length) <;> simp
+
+theorem advLoop_retag (f : Tag → Tag) (l : List Seg) (n len : Nat) :
+    advLoop (l.map (retagSeg f)) n len =
+      match advLoop l n len with
+      | .error p => .error ⟨retagChain f p.left⟩
+      | .ok c => .ok (retagChain f c) := by
+  induction l generalizing n len with
+  | nil =>
+    cases n with
+    | zero => simp [advLoop_zero, retagChain]
+    | succ m => simp [advLoop_nil_succ, retagChain]
+  | cons s rest ih =>
+    cases n with
+    | zero => simp [advLoop_zero, retagChain]
+    | succ m =>
+      simp only [List.map_cons, advLoop_cons, retagSeg_bytes]
+      by_cases hle : s.bytes.length ≤ m + 1
+      · simp only [hle, if_true]; exact ih _ _
+      · simp [hle, retagChain, retagSeg]
+
+theorem seg_splitOff_retag (f : Tag → Tag) (s : Seg) (n : Nat) :
+    (retagSeg f s).splitOff n =
+      match s.splitOff n with
+      | .error _ => .error ⟨retagSeg f s⟩
+      | .ok (a, b) => .ok (retagSeg f a, retagSeg f b) := by
+  by_cases h : n ≤ s.bytes.length
+  · rw [seg_splitOff_ok s n h, seg_splitOff_ok _ n (by simpa using h)]; rfl
+  · have h' := Nat.lt_of_not_le h
+    rw [seg_splitOff_err s n h', seg_splitOff_err _ n (by simpa using h')]
+
+theorem splitOff_retag (f : Tag → Tag) (c : Chain) (n : Nat) :
+    (retagChain f c).splitOff n =
+      match c.splitOff n with
+      | .error p => .error ⟨retagChain f p.left⟩
+      | .ok (a, b) => .ok (retagChain f a, retagChain f b) := by
+  unfold Chain.splitOff
+  simp only [retagChain, splitScan_retag]
+  generalize splitScan c.segs n = res
+  obtain ⟨fr, b, r⟩ := res
+  simp only
+  by_cases hr : r = 0
+  · simp [hr]
+  · simp only [hr, if_false]
+    cases b with
+    | nil => simp
+    | cons s rest =>
+      simp only [List.map_cons, seg_splitOff_retag]
+      cases s.splitOff r with
+      | error e => simp
+      | ok v => obtain ⟨a, b⟩ := v; simp
+
+theorem truncate_retag (f : Tag → Tag) (c : Chain) (n : Nat) :
+    (retagChain f c).truncate n =
+      match c.truncate n with
+      | .error p => .error ⟨retagChain f p.left⟩
+      | .ok (a, _) => .ok (retagChain f a, ()) := by
+  unfold Chain.truncate
+  simp only [retagChain, truncScan_retag]
+  split
+  · simp
+  · cases truncScan c.segs n <;> simp
+
+theorem advance_retag (f : Tag → Tag) (c : Chain) (n : Nat) :
+    (retagChain f c).advance n =
+      match c.advance n with
+      | .error p => .error ⟨retagChain f p.left⟩
+      | .ok (a, _) => .ok (retagChain f a, ()) := by
+  unfold Chain.advance
+  simp only [retagChain, advLoop_retag]
+  split
+  · simp
+  · cases advLoop c.segs n c.cachedLen <;> simp [retagChain]
+
 end Penguin.C20
